@@ -111,14 +111,14 @@ class C03(core.Prop):
         return ['seq', self._random_tree(rng, ops[:i]), self._random_tree(rng, ops[i:])]
 
     def cases(self, rng, tier):
-        n = 120 if tier == 'quick' else 1200
+        n = 120 if tier == 'quick' else 500
         out = []
         # every expression ends in a stateless probe mapper so that both segments end in a worker whose input is observed
         probe = {'apply': ['probe', 0, False], 'train': 'same'}
         for _ in range(n):
             ops = [self._spec(rng, k) for k in range(rng.randint(1, 5))] + [probe]
             out.append({'expr': self._random_tree(rng, ops)})
-        for _ in range(6 if tier == 'quick' else 40):
+        for _ in range(6 if tier == 'quick' else 20):
             ops = [self._spec(rng, k) for k in range(rng.randint(2, 3))] + [probe]
             out.extend({'expr': t} for t in self._trees(ops))
         return out
